@@ -114,7 +114,7 @@ def outOf (r : DWorld × GoErr) : FrameOut :=
 theorem take_len_of_ge {n : Nat} {s : Bytes} (h : ¬ s.length < n) : (s.take n).length = n := by
   simp [List.length_take]; omega
 
-set_option maxHeartbeats 4000000 in
+set_option maxHeartbeats 8000000 in
 /-- **Source = model**, for every handler table, every header, every content of the await map, every handler
 behaviour and every remaining stream: what the translated `passToHandler` delivers, discards, allocates, consumes and
 returns is what `ReadSide.dispatch` says (`inMap`: the header's id is in the await map; for the three unsolicited types
@@ -122,31 +122,35 @@ the map is not consulted). -/
 theorem src_dispatch_eq (cfg : Cfg) (i : Nat) (h : Header) (inMap : Bool) (beh : Beh) (s : Bytes) :
     outOf (Gen.llrp_Client_passToHandler (dispEnv cfg i beh) { stream := s, awaited := inMap } h)
       = dispatch cfg i h (!unsolicited h.typ && inMap) beh s := by
-  have e62 : ((h.typ : Int) = 62) ↔ h.typ = 62 := by omega
-  have e61 : ((h.typ : Int) = 61) ↔ h.typ = 61 := by omega
-  have e63 : ((h.typ : Int) = 63) ↔ h.typ = 63 := by omega
-  have hu : ((decide ((h.typ : Int) ≠ 62) && decide ((h.typ : Int) ≠ 61)) && decide ((h.typ : Int) ≠ 63)) = !unsolicited h.typ := by
-    by_cases t62 : h.typ = 62 <;> by_cases t61 : h.typ = 61 <;> by_cases t63 : h.typ = 63 <;>
-      simp [unsolicited, t62, t61, t63, e62, e61, e63]
   have hbig : (decide (((h.payloadLen : Nat) : Int) > 655360)) = !decide (h.payloadLen ≤ MaxBuf) := by
     by_cases hb : h.payloadLen ≤ MaxBuf
     · have : ¬ ((h.payloadLen : Int) > 655360) := by unfold MaxBuf Gen.MaxBufferedPayloadSz at hb; omega
       simp [hb, this]
     · have : ((h.payloadLen : Int) > 655360) := by unfold MaxBuf Gen.MaxBufferedPayloadSz at hb; omega
       simp [hb, this]
-  have k1 : s.length < h.payloadLen → (h.payloadLen ≤ s.length) = False := fun x => by simp; omega
-  have k2 : ¬ s.length < h.payloadLen → (h.payloadLen ≤ s.length) = True := fun x => by simp; omega
   unfold Gen.llrp_Client_passToHandler
-  cases hun : unsolicited h.typ <;> cases inMap <;> by_cases hh : cfg.handlers.contains h.typ = true <;>
+  cases hun : unsolicited h.typ <;> cases inMap <;> by_cases hh : h.typ ∈ cfg.handlers <;>
     by_cases hd : cfg.hasDefault = true <;> by_cases hb : h.payloadLen ≤ MaxBuf <;> by_cases hl : s.length < h.payloadLen <;>
-    first
-      | (simp [dispEnv, hu, hbig, dispatch, outOf, handlerParty, handlerOf, defaultOf, runHandler, hun, hh, hd, hb, hl, k1 hl,
-          ofInts_toInts, take_len_of_ge, guarded, callRaw]; done)
-      | (simp [dispEnv, hu, hbig, dispatch, outOf, handlerParty, handlerOf, defaultOf, runHandler, hun, hh, hd, hb, hl, k2 hl,
-          ofInts_toInts, take_len_of_ge, guarded, callRaw]; done)
-      | (simp [dispEnv, hu, hbig, dispatch, outOf, handlerParty, handlerOf, defaultOf, runHandler, hun, hh, hd, hb, hl, k1 hl,
-          ofInts_toInts, take_len_of_ge, guarded, callRaw] <;> simp_all [List.length_take, ofInts_toInts] <;> omega)
-      | (simp [dispEnv, hu, hbig, dispatch, outOf, handlerParty, handlerOf, defaultOf, runHandler, hun, hh, hd, hb, hl, k2 hl,
-          ofInts_toInts, take_len_of_ge, guarded, callRaw] <;> simp_all [List.length_take, ofInts_toInts] <;> omega)
+    (first
+      | (have hu' : (¬ (h.typ : Int) = 62 ∧ ¬ (h.typ : Int) = 61) ∧ ¬ (h.typ : Int) = 63 := by
+           simp [unsolicited] at hun; omega
+         first
+           | (have hn : ¬ h.payloadLen ≤ s.length := by omega
+              simp [dispEnv, hu', hbig, dispatch, outOf, handlerParty, handlerOf, defaultOf, runHandler, hun, hh, hd, hb, hl, hn,
+                ofInts_toInts, guarded, callRaw]; done)
+           | (have hn : h.payloadLen ≤ s.length := by omega
+              simp [dispEnv, hu', hbig, dispatch, outOf, handlerParty, handlerOf, defaultOf, runHandler, hun, hh, hd, hb, hl, hn,
+                ofInts_toInts, take_len_of_ge, List.length_take, Nat.min_eq_left hn, guarded, callRaw]; done))
+      | (have hx : (h.typ = 62 ∨ h.typ = 61) ∨ h.typ = 63 := by simpa [unsolicited] using hun
+         obtain ⟨ver, typ, plen, mid⟩ := h
+         simp only at hx hh hb hl hbig
+         rcases hx with (rfl | rfl) | rfl <;>
+         first
+           | (have hn : ¬ plen ≤ s.length := by omega
+              simp [dispEnv, hbig, dispatch, outOf, handlerParty, handlerOf, defaultOf, runHandler, unsolicited, hh, hd, hb, hl, hn,
+                ofInts_toInts, guarded, callRaw]; done)
+           | (have hn : plen ≤ s.length := by omega
+              simp [dispEnv, hbig, dispatch, outOf, handlerParty, handlerOf, defaultOf, runHandler, unsolicited, hh, hd, hb, hl, hn,
+                ofInts_toInts, take_len_of_ge, List.length_take, Nat.min_eq_left hn, guarded, callRaw]; done)))
 
 end LLRP.SeqGlue
